@@ -53,14 +53,16 @@ type netNext struct {
 }
 
 type netWorld struct {
-	lastDisc map[[2]int]time.Duration
-	appScore map[string]float64 // "node|peer" -> application score (net_score runs)
-	s        *sim
-	plan     *Plan
-	nodes    []*simNode
-	router   []string
-	topics   []string
-	gp       GossipSubParams
+	lastTouch map[[2]int]time.Duration
+	killAcc   map[[2]int]*killAccount
+	lastDisc  map[[2]int]time.Duration
+	appScore  map[string]float64 // "node|peer" -> application score (net_score runs)
+	s         *sim
+	plan      *Plan
+	nodes     []*simNode
+	router    []string
+	topics    []string
+	gp        GossipSubParams
 
 	conn       map[[2]int]bool
 	fanoutOnly map[string]bool // "node|topic"
@@ -283,20 +285,59 @@ func (w *netWorld) neighbours(i int) []int {
 	return out
 }
 
-// killBudget: the library gives up on a peer whose outbound stream had to be re-opened
-// MaxBackoffAttempts (4) times within 10 minutes while it stayed (or was again) connected; that is a
-// documented design limit, not what C01/C05 are about. The world therefore causes at most 3 stream
-// deaths per pair and run. A whole-peer disconnect is not one (the back-off is consulted only when
-// the peer is connected at the time the death is handled), unless the reconnect follows within
-// 100 ms: then the old streams' deaths may be handled with the new connection in place.
-func (w *netWorld) killBudget(a, b int) bool {
-	k := pairKey(a, b)
-	if w.kills[k] >= MaxBackoffAttempts-1 {
+// mayKill: the library gives up on a peer whose outbound stream had to be re-opened
+// MaxBackoffAttempts (4) times while it stayed (or was again) connected, unless the last of them is
+// more than TimeToLive (10 min) ago; that is a documented design limit, not what C01/C05 are about.
+// The world keeps its own account of that rule per direction (a's stream to b) and stays inside
+// it: a death it causes costs one attempt when it is clean (both ends at once, nothing else
+// happened on that pair for a second) and is charged two otherwise, because a death that hits a
+// stream which is still being set up or replaced can be noticed twice; an account older than
+// TimeToLive (plus a second for the time a death takes to be noticed) is empty again.
+type killAccount struct {
+	attempts int
+	last     time.Duration
+}
+
+func (w *netWorld) mayKill(a, b int, clean bool) bool {
+	if w.killAcc == nil {
+		w.killAcc = map[[2]int]*killAccount{}
+	}
+	k := [2]int{a, b}
+	acc := w.killAcc[k]
+	if acc == nil {
+		acc = &killAccount{}
+		w.killAcc[k] = acc
+	}
+	if acc.attempts > 0 && w.s.now()-acc.last > TimeToLive+time.Second {
+		w.s.probe("stream_death_history_expired")
+		acc.attempts = 0
+	}
+	cost := 2
+	if clean {
+		cost = 1
+	}
+	if acc.attempts+cost > MaxBackoffAttempts {
 		w.s.probe("skipped_at_give_up_limit")
 		return false
 	}
-	w.kills[k]++
+	acc.attempts += cost
+	acc.last = w.s.now()
+	if acc.attempts == MaxBackoffAttempts {
+		w.s.probe("fourth_stream_death_in_a_row")
+	}
 	return true
+}
+
+func (w *netWorld) touch(a, b int) {
+	if w.lastTouch == nil {
+		w.lastTouch = map[[2]int]time.Duration{}
+	}
+	w.lastTouch[pairKey(a, b)] = w.s.now()
+}
+
+func (w *netWorld) untouchedFor(a, b int, d time.Duration) bool {
+	t, ok := w.lastTouch[pairKey(a, b)]
+	return ok && w.s.now()-t > d
 }
 
 func (w *netWorld) churn() {
@@ -338,11 +379,16 @@ func (w *netWorld) exec(it Item) {
 		if t, ok := w.lastDisc[pairKey(a, b)]; ok && s.now()-t < 100*time.Millisecond {
 			// the deaths of the old streams may be handled when the peer is connected again: that
 			// counts as a transient stream loss (one of the MaxBackoffAttempts)
-			if !w.killBudget(a, b) {
+			if !w.mayKill(a, b, false) {
+				return
+			}
+			if !w.mayKill(b, a, false) {
+				w.killAcc[[2]int{a, b}].attempts -= 2
 				return
 			}
 		}
 		w.conn[pairKey(a, b)] = true
+		w.touch(a, b)
 		w.churn()
 		ha, hb := w.nodes[a].h, w.nodes[b].h
 		c := s.connect(ha, hb, false)
@@ -387,6 +433,7 @@ func (w *netWorld) exec(it Item) {
 			w.lastDisc = map[[2]int]time.Duration{}
 		}
 		w.lastDisc[pairKey(a, b)] = s.now()
+		w.touch(a, b)
 		delete(w.conn, pairKey(a, b))
 		w.churn()
 		s.fault("disconnect")
@@ -399,9 +446,10 @@ func (w *netWorld) exec(it Item) {
 			return
 		}
 		st := w.outStream(a, b)
-		if st == nil || !w.killBudget(a, b) {
+		if st == nil || !w.mayKill(a, b, it.a(2) == 0 && w.untouchedFor(a, b, time.Second)) {
 			return
 		}
+		w.touch(a, b)
 		w.churn()
 		s.fault("stream_reset")
 		ends := []*simStream{st, st.peer}
@@ -436,6 +484,28 @@ func (w *netWorld) exec(it Item) {
 		st.wr.setStalled(true)
 		d := time.Duration(it.a(2)) * time.Millisecond
 		s.after(d, "unstall "+st.name, func() { st.wr.setStalled(false); w.lastChurn = s.now() })
+		w.lastChurn = s.now() + d
+	case "slow":
+		// [a, b, per-frame ms, duration ms] a's outbound stream to b takes one frame per interval
+		a, b := w.idx(it.a(0)), w.idx(it.a(1))
+		st := w.outStream(a, b)
+		if st == nil {
+			return
+		}
+		w.churn()
+		s.fault("link_slow")
+		per := time.Duration(it.a(2)) * time.Millisecond
+		st.wr.mu.Lock()
+		st.wr.slow = per
+		st.wr.mu.Unlock()
+		d := time.Duration(it.a(3)) * time.Millisecond
+		s.after(d, "link-fast-again "+st.name, func() {
+			st.wr.mu.Lock()
+			st.wr.slow = 0
+			st.wr.mu.Unlock()
+			st.wr.setStalled(false)
+			w.lastChurn = s.now()
+		})
 		w.lastChurn = s.now() + d
 	case "sub":
 		i, t := w.idx(it.a(0)), w.topicName(it.a(1))
@@ -575,11 +645,44 @@ func (w *netWorld) exec(it Item) {
 			n.mu.Lock()
 			delete(n.topics, t)
 			n.mu.Unlock()
+			if it.a(2) == 1 {
+				// the application will join the topic again the other way round: FanoutOnly() if it
+				// was an ordinary topic, ordinary if it was fanout-only
+				k := fmt.Sprintf("%d|%s", i, t)
+				if w.fanoutOnly == nil {
+					w.fanoutOnly = map[string]bool{}
+				}
+				w.fanoutOnly[k] = !w.fanoutOnly[k]
+				s.probe("topic_rejoined_with_other_fanout_only_setting")
+			}
 		}
 	case "pub":
 		w.publish(w.idx(it.a(0)), w.topicName(it.a(1)), int(it.a(2)), it.a(3) != 0)
 	case "evh":
 		w.evhNew(w.idx(it.a(0)), w.topicName(it.a(1)))
+	case "connburst":
+		// [i, a, b] a and b connect to i and are identified while i's event loop is busy; a leaves
+		// again before the loop gets to them: one batch of pending peers, one of them already gone
+		i, a, b := w.idx(it.a(0)), w.idx(it.a(1)), w.idx(it.a(2))
+		if i == a || i == b || a == b || w.connected(i, a) || w.connected(i, b) {
+			return
+		}
+		n := w.nodes[i]
+		s.probe("pending_peer_batch_with_departed_peer")
+		w.armLoopPark = true
+		s.spawn(fmt.Sprintf("GetTopics N%d (keeps the loop busy)", i), func() any { return len(n.ps.GetTopics()) })
+		s.settle()
+		w.armLoopPark = false
+		w.exec(Item{Op: "conn", A: []int64{int64(i), int64(a)}})
+		w.exec(Item{Op: "conn", A: []int64{int64(b), int64(i)}})
+		s.advance(5 * time.Millisecond)
+		w.exec(Item{Op: "disc", A: []int64{int64(i), int64(a)}})
+		for _, g := range s.parkedGates() {
+			if strings.HasPrefix(g.id, "net-loop-request") {
+				s.release(g, 0)
+			}
+		}
+		s.settle()
 	case "evhrace":
 		// [i, topic, j] a handler is created on node i while its event loop is busy with another
 		// request; meanwhile neighbour j subscribes and its announcement reaches i's inbox. When
